@@ -62,7 +62,7 @@ def gen_common(rng, oned=False):
     dirs, order = None, "1d"
     if not oned:
         full = rng.random() < 0.75
-        dirs, order = gen.gen_dirs(rng, nd, order=rng.choice(["sorted", "sorted", "rotated", "reversed", "seam"]), exact=exact, full=full)
+        dirs, order = gen.gen_dirs(rng, nd, order=rng.choice(["sorted", "sorted", "rotated", "reversed", "seam"] + (["sorted360"] if full else [])), exact=exact, full=full)
         if len(set(dirs.tolist())) != len(dirs):
             dirs = np.array([j * 360.0 / nd for j in range(nd)])
             order = "sorted"
